@@ -266,4 +266,7 @@ func (q *Question) Clean() {
 		o.Clean()
 		return nil
 	})
+	// NOTE: an intransitive activity has no object, but its actor and target can be embedded just like an Activity's
+	CleanRecipients(q.Actor)
+	CleanRecipients(q.Target)
 }
